@@ -13,12 +13,20 @@ pub fn read_tlc_vectors(path: &str, tag: &str) -> Vec<Value> {
         if let Some(rest) = line.strip_prefix(&prefix) {
             if let Some(lit) = rest.strip_suffix(">>") {
                 let s: String = serde_json::from_str(lit).unwrap_or_else(|e| panic!("bad literal {e}: {lit}"));
-                let v: Value = serde_json::from_str(&s).unwrap_or_else(|e| panic!("bad json {e}: {s}"));
+                let v: Value = parse_json(&s).unwrap_or_else(|e| panic!("bad json {e}: {s}"));
                 out.push(v);
             }
         }
     }
     out
+}
+
+/// serde_json with the recursion limit lifted (deep lists are ordinary CLVM values)
+pub fn parse_json(s: &str) -> Result<Value, String> {
+    use serde::Deserialize;
+    let mut de = serde_json::Deserializer::from_str(s);
+    de.disable_recursion_limit();
+    Value::deserialize(&mut de).map_err(|e| format!("{e}"))
 }
 
 pub fn read_ndjson(path: &str) -> Vec<Value> {
@@ -27,7 +35,7 @@ pub fn read_ndjson(path: &str) -> Vec<Value> {
         .lines()
         .map(|l| l.unwrap())
         .filter(|l| !l.trim().is_empty())
-        .map(|l| serde_json::from_str(&l).unwrap_or_else(|e| panic!("bad json line {e}: {l}")))
+        .map(|l| parse_json(&l).unwrap_or_else(|e| panic!("bad json line {e}: {l}")))
         .collect()
 }
 
